@@ -83,6 +83,7 @@ def plan(tier, seed):
     shards.append({'kind': 'num', 'supply': 'placed', 'n': 1200 if tier == 'quick' else 12000})
     shards.append({'kind': 'text', 'supply': 'placed', 'n': 800 if tier == 'quick' else 8000})
     shards.append({'kind': 'blank', 'supply': 'table'})
+    shards.append({'kind': 'date', 'supply': 'datecall'})
     return shards
 
 
@@ -302,9 +303,52 @@ def run_blank(shard, ctx):
     r.sample({'blank_vs': BLANK_X['positive'][:2] + BLANK_X['text'][:2], 'formulas': ['=A3<B2', '=B2>A3', '=A3=""']})
 
 
+def run_datecall(shard, ctx):
+    """a DATE(...) / TODAY() call as DIRECT operand of a comparison, the other operand a cell holding a date-time, a plain date
+    (overrides may be datetime.date objects), or a blank cell: the same exact ordering, 'date = its midnight date-time' and
+    'blank is smaller than every date' as for two cells"""
+    r = ctx.r
+    D = dt.datetime(2024, 1, 15)
+    cells = {'A2': dt.datetime(2024, 1, 15)}
+    col = 3
+    f1, f2, b1, b2, t1 = {}, {}, {}, {}, {}
+    for op in OPS:
+        f1[op] = wbspec.a1(5, col); cells[f1[op]] = f'=A2{op}DATE(2024,1,15)'
+        f2[op] = wbspec.a1(6, col); cells[f2[op]] = f'=DATE(2024;1;15){op}A2'
+        b1[op] = wbspec.a1(7, col); cells[b1[op]] = f'=A3{op}DATE(2024,1,15)'
+        b2[op] = wbspec.a1(8, col); cells[b2[op]] = f'=DATE(2024,1,15){op}A3'
+        t1[op] = wbspec.a1(9, col); cells[t1[op]] = f'=A3{op}TODAY()'
+        col += 1
+    book = pipeline.Book(wbspec.spec(wbspec.sheet('S1', cells)), ctx.workdir, name='datecall')
+    xs = [dt.datetime(2024, 1, 15), dt.date(2024, 1, 15), dt.datetime(2024, 1, 15, 0, 0, 1), dt.datetime(2024, 1, 14, 23, 59, 59), dt.date(2024, 1, 14),
+          dt.date(2024, 1, 16), dt.datetime(2023, 12, 31), dt.date(2025, 2, 28), dt.datetime(2024, 1, 15, 12, 0), dt.date(1999, 12, 31)]
+    for x in xs:
+        sx = sem('date', x)
+        for table, order in ((f1, 'cell op DATE()'), (f2, 'DATE() op cell')):
+            outs = book.values(0, [table[op] for op in OPS], [(0, 'A2', x)])
+            got = {op: _as_bool(o) for op, o in zip(OPS, outs)}
+            exp = {op: (PYOP[op](sx, D) if order.startswith('cell') else PYOP[op](D, sx)) for op in OPS}
+            r.ev(6)
+            r.count('date_call_operand_checks', 6)
+            if got != exp:
+                report(r, ID, None, {'kind': 'datecall', 'x': x, 'order': order, 'type': type(x).__name__}, got, exp, monitor='date-call-operand')
+            r.nt(('datecall', repr(x), order))
+    for table, exp, order in ((b1, LT_ROW, 'blank op DATE()'), (b2, GT_ROW, 'DATE() op blank'), (t1, LT_ROW, 'blank op TODAY()')):
+        outs = book.values(0, [table[op] for op in OPS], None)
+        got = {op: _as_bool(o) for op, o in zip(OPS, outs)}
+        r.ev(6)
+        r.count('date_call_operand_checks', 6)
+        if got != exp:
+            report(r, ID, None, {'kind': 'datecall', 'x': 'blank', 'order': order}, got, exp, monitor='date-call-operand')
+        r.nt(('datecall', 'blank', order))
+    r.sample({'date_call_operands': [cells[f1['<']], cells[b1['<']], cells[t1['>=']]]})
+
+
 def run_shard(shard, ctx):
     if 'replay' in shard:
         c = shard['replay']
+        if c.get('kind') == 'datecall':
+            return run_datecall({}, ctx)
         if c.get('kind') == 'blank':
             return run_blank({}, ctx)
         if c.get('supply') == 'override':
@@ -314,6 +358,8 @@ def run_shard(shard, ctx):
         run_override(shard, ctx)
     elif shard['supply'] == 'placed':
         run_placed(shard, ctx)
+    elif shard['supply'] == 'datecall':
+        run_datecall(shard, ctx)
     else:
         run_blank(shard, ctx)
 
